@@ -9,3 +9,4 @@ import (
 
 func verifSetQuery(u *url.URL, v url.Values)
 func verifMoveCookies(dst, src *http.Request)
+func verifJSONCopy(dst, src any) error
